@@ -7,7 +7,7 @@
    the request to the path object n as a describer / reader / publisher. All theorems hold for every oracle, every
    configuration history and every request. *)
 From Coq Require Import List ZArith Bool String.
-Require Import MTX.Model.C14_PathConf MTX.Model.C03_Auth MTX.Proofs.C03_Auth MTX.Proofs.C03_Flows MTXGen.C03_Flows.
+Require Import MTX.Model.C14_PathConf MTX.Model.C03_Auth MTX.Proofs.C03_Auth MTX.Proofs.C03_E2E MTX.Proofs.C03_Flows MTXGen.C03_Flows.
 Import ListNotations.
 Local Open Scope Z_scope.
 
@@ -131,6 +131,28 @@ Theorem C03_table_covers :
   In ("internal/servers/rtmp/conn.go:runPublish:AddPublisher"%string, FTwoStep KPublisher true true true true) sites.
 Proof. exact table_covers. Qed.
 Print Assumptions C03_table_covers.
+
+(* End to end (Check/C03.v, E2E cases): the admission the model predicts for an attempt of a real protocol client -
+   the servers' flow run on the model with the oracle's verdict for the requested name - is never one the end-to-end
+   judgement rejects: the oracle admitted the requested name, the name is valid and configured when the attaching call is
+   made, and for a publisher the configuration serving it is the one it was authorized under. (What is left to the
+   observation alone: that the path attached is the one named, and the oracle's verdict for it.) *)
+Theorem C03_e2e_model_sound :
+  forall publish n cr ip conf0 reload oreq,
+  e2e_model publish n cr ip conf0 reload oreq = true ->
+  oreq = true /\ valid_name n = true /\ (exists c, e2e_in_force conf0 reload = Some c) /\
+  (publish = true -> conf0 = e2e_in_force conf0 reload).
+Proof. exact e2e_model_sound. Qed.
+Print Assumptions C03_e2e_model_sound.
+
+Example C03_e2e_model_examples :
+  let n := [112; 49] in
+  (e2e_model true n 3 0 (Some 1) None true, e2e_model true n 3 0 (Some 1) (Some (Some 1)) true,
+   e2e_model false n 2 1 (Some 1) None true,
+   e2e_model true n 3 0 (Some 1) (Some (Some 2)) true, e2e_model true n 3 0 (Some 1) None false,
+   e2e_model false [112; 47] 2 1 (Some 1) None true, e2e_model false n 2 1 None None true)
+  = (true, true, true, false, false, false, false).
+Proof. exact e2e_model_examples. Qed.
 
 (* non-vacuity of C03_flow_sound *)
 Example C03_examples :
